@@ -52,6 +52,20 @@ class X86PrologueEpilogueInsertion(ModulePass):
             reg_op = builder.insert(x86.GetRegisterOp(reg))
             builder.insert(x86.S_PushOp(rsp_in=sp_register, source=reg_op))
 
+        # The pushes moved the stack pointer: loads relative to the stack pointer on
+        # entry (stack-carried parameters) must skip the saved registers.
+        saved_bytes = 8 * len(used_callee_preserved_registers)
+        for arg in func.body.blocks[0].args:
+            if arg.type != RSP:
+                continue
+            for use in tuple(arg.uses):
+                load = use.operation
+                if isinstance(load, x86.ops.DM_Operation):
+                    load.memory_offset = builtin.IntegerAttr(
+                        load.memory_offset.value.data + saved_bytes,
+                        load.memory_offset.type,
+                    )
+
         # Now build the epilogue right before every return operation.
         for block in func.body.blocks:
             ret_op = block.last_op
